@@ -4,6 +4,8 @@
 package wrapper
 
 //@ func WrapOrDie(cmd) ()
+//@   property C20
+//@   propagates New#1, Parser.MergeFileLayers#1, Parser.OutputToFile#1   [C20] [C08]
 //@   uses sappLen, slsetLen
 //@   loop 1
 //@     invariant (= (sllen (sitems args)) (sllen (sitems args@loop)))
